@@ -3,7 +3,7 @@ and the signature function that labels a failing case for known_findings.jsonl."
 
 PROPS = {
     'C18': {
-        'families': [('c18', 25, 250)],
+        'families': [('c18', 25, 100)],
         'rule': 'random source trees on disk (regular files of 0 B .. several 256 KiB chunks, nested directories, empty directories, symlinks with relative / absolute / dangling targets, unicode and odd names; thorough: one directory wide enough to be HAMT-sharded) x --version {1,2} x --no-wrap / wrapped with 1-3 arguments (directories and plain files) packed by the BUILT car binary; the engine (BuildUnixFSRecursive) is replayed in process to record the blocks in put order and the root; the model session (proxy root, those puts, Finalize, ReplaceRootsInFile) must predict the archive the binary wrote BYTE FOR BYTE; car root must print the header root = the engine root; the archive is extracted by the binary from the file or from a pipe on stdin into an empty directory and the model (fed the recorded engine trace) must predict the whole extracted tree, which S requires to equal the source tree (names, contents, link targets); distinct = distinct script text',
         'trusted': ['go-unixfsnode: BuildUnixFSRecursive / Reify / file reassembly (parameters: recorded block sequence and recorded trace; that the trace of the built DAG denotes the source tree is checked on every run, not proved)', 'the file-system model (see C17)'],
         'assumptions': ['entry names are valid file names (no separator, not . or ..), unique per directory: true of every tree read from a file system', 'file modes, ownership and timestamps are not part of the tree (UnixFS as written by car create does not carry them)'],
